@@ -15,7 +15,7 @@ ASSUMPTIONS = [
 ]
 BOUNDS = {
     "quick": "event sequences of length <= 4 after connect over {CHALLENGE, WELCOME, ABORT, GOODBYE, illegal message (5 kinds), local leave, local disconnect, transport loss}; pending requests of all 6 kinds present or not; user callbacks onJoin/onLeave/onChallenge/onWelcome/onDisconnect raising or not (one at a time); a second session joined on the same transport",
-    "thorough": "sequences of length <= 6, two raising callbacks at a time",
+    "thorough": "sequences of length <= 5 (length 6 was measured: > 4.4 million paths, over the 40 min budget), one raising callback at a time, pending requests together with each raising callback",
 }
 EXPECT_COVERS = ["end:goodbye-by-router", "end:goodbye-by-us", "end:abort", "end:transport-lost-joined", "end:transport-lost-unjoined", "illegal:ProtocolError", "pending:errbacked", "after:raises", "rejoin"]
 BUDGET = {"quick": dict(wall_s=300, max_paths=40000, diff_samples=4), "thorough": dict(wall_s=2400, max_paths=400000)}
@@ -258,7 +258,7 @@ def rejoin(sx, who_closes_first, second):
 def units(tier):
     U = []
     q = tier == "quick"
-    K = 4 if q else 6
+    K = 4 if q else 5
     for first in ("welcome", "challenge", "abort", "illegal", "leave", "lost", "goodbye", "disconnect"):
         for populate in (False, True):
             if populate and first != "welcome":
